@@ -245,6 +245,67 @@ def eval_writer(ann, col, text, clean_line):
     return results
 
 
+def eval_repointed_writer(ann, col, text, clean_line):
+    """A header first resolved for the UNMASKED twin layout (its scheme looked up), then re-pointed IN PLACE at the
+    public / masked layout `ann` (header[annotation.spec].value = ...), then given to a Strict writer, which is offered a
+    record parsed under the unmasked twin carrying `text` in the germline column `col`."""
+    from maflib.header import MafHeader
+    from maflib.record import MafRecord
+    from maflib.writer import MafWriter
+    from maflib.validation import ValidationStringency as VS
+    twin = PROTECTED_OF.get(ann)
+    if not twin:
+        return []
+    sch, tsch = impl.scheme_by_annotation(ann), impl.scheme_by_annotation(twin)
+    names = sch.column_names()
+    if tsch.column_names()[:len(names)] != names and set(names) - set(tsch.column_names()):
+        return []
+    tnames = tsch.column_names()
+    fields = dict(zip(names, clean_line.split("\t")))
+    fields[col] = text
+    # the twin may have extra (VCF) columns: null / plain values for those
+    tline = "\t".join(fields.get(n, "") for n in tnames)
+    results = []
+    for how in ("from_lines", "from_defaults"):
+        try:
+            if how == "from_lines":
+                h = MafHeader.from_lines(["#version " + tsch.version(), "#annotation.spec " + twin], validation_stringency=VS.Silent)
+            else:
+                h = MafHeader.from_defaults(version=tsch.version(), annotation=twin)
+            h.scheme()                                           # the caller looks at the scheme once
+            h[MafHeader.AnnotationSpecKey].value = ann           # ... and re-points the header in place
+            rec = MafRecord.from_line(tline, scheme=tsch, validation_stringency=VS.Silent)
+            buf = io.StringIO()
+            buf.close = lambda: None
+            w = MafWriter.from_fd(buf, h, validation_stringency=VS.Strict)
+            try:
+                w += rec
+            except Exception:  # noqa
+                pass
+            try:
+                w.close()
+            except Exception:  # noqa
+                pass
+        except Exception as e:  # noqa
+            results.append({"how": how, "failures": [], "account": "not applicable (%s)" % exc_name(e)})
+            continue
+        lines = buf.getvalue().split("\n")
+        declared = [l for l in lines if l.startswith("#annotation.spec")]
+        body = [ln for ln in lines if ln and not ln.startswith("#")]
+        fails = []
+        if declared == ["#annotation.spec " + ann] and len(body) >= 2:
+            hdr_cols = body[0].split("\t")
+            for ln in body[1:]:
+                cells = dict(zip(hdr_cols, ln.split("\t")))
+                if cells.get(col, "") != "":
+                    fails.append({"scheme": ann, "column": col, "text": text, "how": "header re-pointed in place (%s)" % how, "clean_line": clean_line,
+                                  "what": "a file whose header declares %s, written by a Strict writer, contains a non-null germline field" % ann,
+                                  "kind": "repointed-leak", "got": cells.get(col)})
+                    break
+        results.append({"how": how, "failures": fails, "account": "%d line(s) after the header" % len(body)})
+    return results
+
+
 def writer_cases(ctx, out):
     rng = ctx.rng("writer")
     for ann, cols in sorted(masked_layouts().items()):
@@ -256,6 +317,11 @@ def writer_cases(ctx, out):
                     out.failures += r["failures"]
                     out.distribution["writer:" + r["how"]] += 1
                     out.nontrivial.add((ann, col, text, r["how"], r["sorting"]))
+                for r in eval_repointed_writer(ann, col, text, clean_line):
+                    out.evaluations += 1
+                    out.failures += r["failures"]
+                    out.distribution["writer:header re-pointed in place (%s)" % r["how"]] += 1
+                    out.nontrivial.add((ann, col, text, "repointed", r["how"]))
 
 
 # ------------------------------------------------------------------ readers: every option that selects the scheme
@@ -682,6 +748,14 @@ def replay_case(ctx, failure):
     sch = impl.scheme_by_annotation(ann)
     if sch is None or col not in sch.column_names() or ann not in masked_layouts():
         return None
+    if f.get("kind") == "repointed-leak" and "clean_line" in f:
+        results = eval_repointed_writer(ann, col, text, f["clean_line"])
+        print("replay C05 writer: a header resolved for the unmasked twin of %s, re-pointed in place at %s, given to a Strict MafWriter that is offered "
+              "a record carrying %r in %s" % (ann, ann, text, col))
+        fails = [x for r in results for x in r["failures"]]
+        for r in results:
+            print("  %s: %s; %d failure(s)" % (r["how"], r["account"], len(r["failures"])))
+        return fails
     if "how" in f:
         if "clean_line" not in f or "sorting" not in f:
             return None
